@@ -678,7 +678,7 @@ func (e *SpecEnv) evalCall(n ECall) Val {
 				dn, _ := g.mapNames(mt)
 				ds, _ := g.mapSorts(mt)
 				hd := g.heapGet(e.st, dn, ds)
-				return Val{T: sIte(sEq(x.T, "0"), "0", fmt.Sprintf("(map.len %s %s)", hd, x.T)), S: sInt, G: types.Typ[types.Int]}
+				return Val{T: sIte(sEq(x.T, "0"), "0", fmt.Sprintf("(%s %s %s)", mapLenFn(g.sortOf(mt.Key())), hd, x.T)), S: sInt, G: types.Typ[types.Int]}
 			}
 		}
 		g.errorf("spec: len of %s", n.Args[0].String())
@@ -733,6 +733,17 @@ func (e *SpecEnv) evalCall(n ECall) Val {
 		case KRef:
 			return Val{T: fmt.Sprintf("(> %s %s)", p.T, e.old.alloc), S: sBool}
 		}
+	case "allocmark":
+		// allocmark(): the allocation counter now (every object allocated later has a larger id)
+		return Val{T: e.st.alloc, S: sInt}
+	case "arrayid":
+		// arrayid(s): identity of the backing array of slice s (0 for nil); comparable with allocmark()
+		p := arg(0)
+		if p.S != nil && p.S.K == KSlice {
+			return Val{T: fmt.Sprintf("(sl.arr %s)", p.T), S: sInt}
+		}
+		g.errorf("spec: arrayid of a non-slice: %s", n.String())
+		return Val{T: "0", S: sInt}
 	case "deref":
 		// deref(p): the value a (non-struct) pointer refers to, in the state the expression is evaluated in
 		p := arg(0)
